@@ -74,6 +74,8 @@ def run(design, steps, out, label="design", check_doc=None):
                     out["extra"]["skipped_undef_bits"] += bin(rx).count("1")
                 if (sv & mask(w) & ~rx) != (rv & ~rx):
                     exp = ref.value(key)
+                    if exp is None:
+                        exp = -1     # unspecified by the documented semantics (the two sides still have to agree)
                     who = "rtlil" if (sv & mask(w)) == (exp & mask(w)) else \
                           "simulator" if (rv == (exp & mask(w)) and not rx) else "both-differ-from-reference"
                     viol.append({"mechanism": f"simulator-vs-rtlil-mismatch:{who}",
@@ -105,6 +107,10 @@ def run(design, steps, out, label="design", check_doc=None):
                 ctx.set(bd2.cd.clk, 1)
                 ev.set("clk", 1)
                 ev.step()
+                ref.clock_edge(rst)
+                # right after the active edge (before anything else happens) everything has settled
+                if not compare(n):
+                    return
                 ctx.set(bd2.cd.clk, 0)
                 ev.set("clk", 0)
                 ev.step()
@@ -112,7 +118,6 @@ def run(design, steps, out, label="design", check_doc=None):
                     ctx.set(bd2.cd.rst, 0)
                     ev.set("rst", 0)
                     ev.step()
-                ref.clock_edge(rst)
             if not compare(n):
                 return
     sim.add_testbench(tb)
